@@ -96,6 +96,12 @@ func runC15(c C15Case) (c15Stats, error) {
 	changed := map[string]bool{}    // a change/registration happened after the name was cached
 	version := 0
 	var clock int64 = 1000
+	type heldT struct {
+		t       *twig.Template
+		name    string
+		version int
+	}
+	var held []heldT
 	firstWins := func(name string) (c15Cached, bool) {
 		for i, l := range raw {
 			if it, ok := l.items[name]; ok {
@@ -144,6 +150,17 @@ func runC15(c C15Case) (c15Stats, error) {
 			raw[l].items[name] = c15Entry{version: version, ts: clock}
 			if _, ok := cache[name]; ok {
 				changed[name] = true
+			}
+		case "renderHeld":
+			// a template handle obtained earlier from Load keeps rendering what it rendered then,
+			// whatever the cache settings are now, and rendering it changes nothing for later reads
+			if len(held) == 0 {
+				continue
+			}
+			h := held[op.Loader%len(held)]
+			r := guard(func() (string, error) { return h.t.Render(nil) })
+			if r.Failed() || r.Out != fmt.Sprintf("v%d", h.version) {
+				return st, fmt.Errorf("op %d: the handle obtained from Load(%s) when it served version %d now renders %v (cache=%v autoReload=%v)", i, h.name, h.version, r, cacheOn, autoReload)
 			}
 		case "touch":
 			// the timestamp advances, the content stays: visible as "changed" once, then unchanged again
@@ -229,13 +246,19 @@ func runC15(c C15Case) (c15Stats, error) {
 			case "renderTo":
 				r = renderTo(e, name, nil)
 			default:
+				var tp *twig.Template
 				r = guard(func() (string, error) {
 					t, err := e.Load(name)
 					if err != nil {
 						return "", err
 					}
+					tp = t
 					return t.Render(nil)
 				})
+				var hv int
+				if _, err := fmt.Sscanf(r.Out, "v%d", &hv); err == nil && tp != nil && !r.Failed() && len(held) < 8 {
+					held = append(held, heldT{tp, name, hv})
+				}
 			}
 			after := raw[0].loads[name] + raw[1].loads[name] + raw[2].loads[name]
 			st.reads++
@@ -319,6 +342,9 @@ func keysOf(m map[int]bool) []int {
 }
 
 func genC15Op(t *rapid.T) C15Op {
+	if rapid.IntRange(0, 9).Draw(t, "renderheld") == 0 {
+		return C15Op{Op: "renderHeld", Loader: rapid.IntRange(0, 7).Draw(t, "which")}
+	}
 	if rapid.IntRange(0, 11).Draw(t, "touch") == 0 {
 		return C15Op{Op: "touch", Name: rapid.IntRange(0, 2).Draw(t, "name"), Loader: rapid.IntRange(0, 2).Draw(t, "loader")}
 	}
@@ -351,7 +377,7 @@ func genC15Op(t *rapid.T) C15Op {
 	return op
 }
 
-const c15Rule = "histories of 10-40 (thorough 200) operations on one engine with three loaders in registration order (timestamp-aware, plain, timestamp-aware; in-memory with read counters): SetCache, SetAutoReload, SetDevelopmentMode, RegisterString, source changes with strictly increasing timestamps, timestamp changes without a content change, removals, Load / Render / RenderTo of 3 names and of an absent name; sources are version markers so the served version is read off the output; non-trivial = a read of a name whose source changed or was re-registered after it had been cached; distinct by operation list"
+const c15Rule = "histories of 10-40 (thorough 200) operations on one engine with three loaders in registration order (timestamp-aware, plain, timestamp-aware; in-memory with read counters): SetCache, SetAutoReload, SetDevelopmentMode, RegisterString, source changes with strictly increasing timestamps, timestamp changes without a content change, removals, Load / Render / RenderTo of 3 names and of an absent name, renders of template handles kept from earlier Loads; sources are version markers so the served version is read off the output; non-trivial = a read of a name whose source changed or was re-registered after it had been cached; distinct by operation list"
 
 func TestC15Cache(t *testing.T) {
 	r := NewRec(t, "C15", c15Rule)
